@@ -220,3 +220,7 @@ impl Message {
         }
     }
 }
+
+#[cfg(all(test, saito_verif))]
+#[path = "/verif/replay/in_crate/message.rs"]
+mod verif_replay;
